@@ -243,6 +243,14 @@ def cases_C13(rng, tier):
             d = enc(DESC_GEN[ty](rng))
             out.append(case("enc", ty, d, fam="enc", key=(ty, d)))
             out.append(case("encval", ty, d, fam="api-encode", key=(ty, d), impl_only=True))
+    # a protected header that retains wire bytes (as obtained from a decoded message): to_vec is still the
+    # serialisation of to_cbor_value(), i.e. of the header's current content, not the retained bytes
+    for _ in range(Q(tier, 40, 400)):
+        pb = rng.choice([b"", gen_protected_bytes(rng, 1), enc(gen_header_map(rng, 1), rng)])
+        hd = rng.choice([D_EMPTY_HEADER, gen_desc_header(rng, 1)])
+        d = enc(d_protected(pb, hd))
+        out.append(case("enc", "ProtectedHeader", d, fam="enc", key=("ProtectedHeader", d)))
+        out.append(case("encval", "ProtectedHeader", d, fam="api-encode", key=("ProtectedHeader", d), impl_only=True))
     return out
 
 def post_C13(cases, impl):
@@ -686,23 +694,50 @@ def cases_C18(rng, tier):
     return out
 
 # ================================================================= C11
-def map_keys_distinct(v):
-    """every map inside v has pairwise distinct keys (by data-model value)"""
-    k = v[0]
-    if k == 'm':
-        ks = [enc(a) for a, _ in v[1]]
-        if len(set(ks)) != len(ks): return False
-        return all(map_keys_distinct(a) and map_keys_distinct(b) for a, b in v[1])
-    if k == 'a': return all(map_keys_distinct(x) for x in v[1])
-    if k == 'g': return map_keys_distinct(v[2])
-    if k == 'b':
-        # protected headers are CBOR inside byte strings: look inside when it parses as one map
-        try:
-            inner = dec_all(v[1])
-            if inner[0] == 'm': return map_keys_distinct(inner)
-        except Exception:
-            pass
+def _keys_distinct(m):
+    ks = [enc(a) for a, _ in m[1]]
+    return len(set(ks)) == len(ks)
+
+def _hdr_ok(m):
+    """a header map emitted by the crate: distinct keys, and the same for the headers of any
+    counter-signature it carries (values of extra parameters are opaque user data, not checked)"""
+    if m[0] != 'm': return True
+    if not _keys_distinct(m): return False
+    for k, v in m[1]:
+        if k == ('i', 7) and v[0] == 'a' and v[1]:
+            sigs = [v] if v[1][0][0] == 'b' else v[1]
+            if not all(_sig_ok(sg) for sg in sigs): return False
     return True
+
+def _prot_ok(b):
+    if b[0] != 'b' or not b[1]: return True
+    try:
+        inner = dec_all(b[1])
+    except Exception:
+        return True
+    return _hdr_ok(inner)
+
+def _sig_ok(a):
+    if a[0] != 'a' or len(a[1]) < 2: return True
+    return _prot_ok(a[1][0]) and _hdr_ok(a[1][1])
+
+def _rec_ok(a):
+    if a[0] != 'a' or len(a[1]) < 2: return True
+    ok = _prot_ok(a[1][0]) and _hdr_ok(a[1][1])
+    if len(a[1]) > 3 and a[1][3][0] == 'a':
+        ok = ok and all(_rec_ok(r) for r in a[1][3][1])
+    return ok
+
+def map_keys_distinct(v, ty="Header"):
+    """every map the crate itself emitted inside the encoding v of a value of type ty has distinct keys"""
+    if ty in ("Header", "ProtectedHeader", "CoseKey", "ClaimsSet"):
+        return _keys_distinct(v) if ty in ("CoseKey", "ClaimsSet") and v[0] == 'm' else _hdr_ok(v)
+    if v[0] != 'a' or len(v[1]) < 2: return True
+    ok = _prot_ok(v[1][0]) and _hdr_ok(v[1][1])
+    if ty == "CoseSign" and len(v[1]) > 3 and v[1][3][0] == 'a': ok = ok and all(_sig_ok(x) for x in v[1][3][1])
+    if ty == "CoseMac" and len(v[1]) > 4 and v[1][4][0] == 'a': ok = ok and all(_rec_ok(x) for x in v[1][4][1])
+    if ty in ("CoseEncrypt", "CoseRecipient") and len(v[1]) > 3 and v[1][3][0] == 'a': ok = ok and all(_rec_ok(x) for x in v[1][3][1])
+    return ok
 
 def cases_C11(rng, tier):
     out = []
@@ -807,14 +842,18 @@ def cases_C12(rng, tier):
     def chk_nodup(c, o):
         if not o.startswith("ok "): return None
         v = dec_all(bytes.fromhex(o.split(" ")[1]))
-        return None if map_keys_distinct(v) else "encoder emitted a map with a repeated label"
+        return None if map_keys_distinct(v, c["line"].split(" ")[1]) else "encoder emitted a map with a repeated label"
     for _ in range(Q(tier, 400, 4000)):
         kind = rng.choice(["Header", "CoseKey", "ClaimsSet", "CoseSign1", "ProtectedHeader"])
         if kind in ("Header", "CoseSign1", "ProtectedHeader"):
-            h = gen_desc_header(rng, 0)
+            h = gen_desc_header(rng, rng.choice([0, 1]))
             x = list(h[1]); rest = list(x[7][1])
             mode = rng.random()
-            if mode < 0.4 and rest:
+            populated = [l for l, f in zip((1, 2, 3, 4, 5, 6, 7), x[:7]) if f != NULL and (f[0] not in ('a', 'b') or f[1])]
+            if mode < 0.25 and populated:
+                # an extra naming a typed field that IS populated (all seven, counter signatures included)
+                rest.insert(rng.randrange(len(rest) + 1), A(I(rng.choice(populated)), gen_scalar(rng)))
+            elif mode < 0.4 and rest:
                 rest.insert(rng.randrange(len(rest) + 1), rng.choice(rest))
             elif mode < 0.8:
                 rest.insert(rng.randrange(len(rest) + 1), A(I(rng.choice([1, 2, 3, 4, 5, 6, 7])), gen_scalar(rng)))
@@ -900,7 +939,7 @@ def extra_C20(rng, tier):
     probs = []; lines2 = []; idx = []
     for c, o in zip(cs, o1):
         m = re.fullmatch(r"ok (\S+) ok ([0-9a-f]+)", o)
-        if not m: continue
+        if not m or "fNaN" in o: continue     # the observation format does not carry NaN payloads
         d2 = enc(parse_show(m.group(1)))
         lines2.append("canon %s %s" % (c["order"], d2.hex())); idx.append((c, o, m.group(2)))
         lines2.append("rt CoseKey %s" % m.group(2)); idx.append((c, o, m.group(2)))
